@@ -602,6 +602,27 @@ def total_cases(rng, pools, tier):
                 q = min(pos, len(base) - 1)
                 base[q], base[q - 1] = base[q - 1], base[q]
         add("U", " ".join(base), [rng.randrange(8)])
+    # ---- valid structures whose operands reach the macro as macro_rules fragments (None-delimited groups; `__g!(..)` is
+    # turned into one by lab): same outcome classes as the plain spelling
+    ng = 300 if tier == "quick" else 3000
+    for i in range(ng):
+        handler = rng.choice([None, None, "map", "then", "and_then"])
+        inp = g.input(rng.randint(1, 4), rng.choice([2, 6, 12]), handler, options=rng.random() < 0.2)
+        for b in inp.branches:
+            if rng.random() < 0.5:
+                b.initial = "__g!(%s)" % b.initial
+            for m in b.members:
+                if m.wrap or not m.operands or m.name not in OP or OP[m.name][3] not in ("expr", "type"):
+                    continue
+                m.operands = [("__g!(%s)" % o) if rng.random() < 0.6 else o for o in m.operands]
+            b.omit_comma = False
+        if inp.handler and rng.random() < 0.7:
+            inp.handler = (inp.handler[0], "__g!(%s)" % inp.handler[1], inp.handler[2])
+        text = inp.render()
+        for cfg in range(8):
+            has_fcp = any(k == "futures_crate_path" for k, _ in inp.options)
+            valid_cfg = handler_ok(handler, cfg) and (not has_fcp or cfg & 2)
+            add("V" if valid_cfg else "I:config", text, [cfg])
     # ---- unlabelled: random token soups and random edits of valid inputs
     nsoup = 3000 if tier == "quick" else 40000
     for i in range(nsoup):
